@@ -30,8 +30,13 @@ This file defines
   table says `ext:`).  For `perInstance` locations: an object is touched only by ONE instance
   of an owner root and the goroutines that instance forks (field `Exec.own`); the translator
   cannot see which object a pointer denotes.
-* A3 (channel hand-over).  For `message` locations: objects travel through channels and the
-  sender does not touch them after the send (field `Exec.msg`).
+* A3 (channel hand-over), reduced.  CHECKED by the translator (fact `sentThenWritten`, obligation
+  `stwOk`, meaning `Exec.sendSem`): in no function of `pkg/cmd` is a field of an object written after the
+  pointer to it was sent on a channel there (directly or through a callee that sends its parameter).
+  Still ASSUMED (`Exec.msgSem`): a `message` object reaches another goroutine only through such a
+  send and the matching receive, and that goroutine touches it only after the receive — i.e. no
+  aliases the translator does not follow (pointers parked in fields, maps, slices), no objects that
+  leave `pkg/cmd`; and the receiving side does not write fields the sender still reads after the send.
 * A4 (allowed leaks).  Exits of a joining function that skip the join are listed per root
   (`leaks`); `disciplineOk` accepts only the ones in `allowedLeaks`; executions taking such an
   exit (the one-minute hard-shutdown time limit of `runConduct`) are outside the theorem.
@@ -77,6 +82,8 @@ structure Access where
 structure Table where
   roots : List Root
   groups : List (List Access)
+  /-- locations that some function writes after it has sent a pointer to the object on a channel -/
+  sentThenWritten : List Nat
 
 def Table.accs (T : Table) : List Access := T.groups.flatten
 def Table.nlocs (T : Table) : Nat := T.groups.length
@@ -97,6 +104,9 @@ inductive Act
   | fork (c : Tid)
   | done
   | join (c : Tid)
+  /-- the pointer to object `obj` is sent on / received from a channel -/
+  | send (obj : Nat)
+  | recv (obj : Nat)
   deriving DecidableEq
 
 structure Event where
@@ -121,6 +131,8 @@ inductive HB (tr : Trace) : Nat → Nat → Prop
       At tr i c (.done) → At tr j t (.join c) → i < j → HB tr i j
   | lock {i j : Nat} {t u : Tid} {a b : Access} {o o' m : Nat} :
       At tr i t (.acc a o) → At tr j u (.acc b o') → m ∈ a.locks → m ∈ b.locks → i < j → HB tr i j
+  | chan {i j : Nat} {t u : Tid} {o : Nat} :
+      At tr i t (.send o) → At tr j u (.recv o) → i < j → HB tr i j
   | trans {i j k : Nat} : HB tr i j → HB tr j k → HB tr i k
 
 /-- two accesses of different thread instances to the same cell of the same object, one a write,
@@ -245,8 +257,16 @@ def checkLoc (T : Table) (pol : Nat → Option Discipline) (l : Nat) : Bool :=
 def leaksOk (T : Table) (allowed : List String) : Bool :=
   T.roots.all fun R => R.leaks.all allowed.contains
 
+/-- a location written after the object was sent must be protected by something else than the hand-over -/
+def stwOk (T : Table) (pol : Nat → Option Discipline) : Bool :=
+  T.sentThenWritten.all fun l =>
+    match pol l with
+    | some .atomic => true
+    | some (.locked _) => true
+    | _ => false
+
 def disciplineOk (T : Table) (pol : Nat → Option Discipline) (allowed : List String) : Bool :=
-  leaksOk T allowed && groupsOk T && (List.range T.nlocs).all (checkLoc T pol)
+  leaksOk T allowed && groupsOk T && stwOk T pol && (List.range T.nlocs).all (checkLoc T pol)
 
 /-- for the evidence: the locations that fail -/
 def failing (T : Table) (pol : Nat → Option Discipline) : List Nat :=
@@ -294,8 +314,16 @@ structure Exec (T : Table) (pol : Nat → Option Discipline) where
   own : ∀ i j t u a b o owners, At tr i t (.acc a o) → At tr j u (.acc b o) → a.loc = b.loc →
     pol a.loc = some (.perInstance owners) →
     ∃ w, rootOf w ∈ owners ∧ (t = w ∨ par t = some w) ∧ (u = w ∨ par u = some w)
-  /-- A3: channel hand-over -/
-  msg : ∀ i j t u a b o, At tr i t (.acc a o) → At tr j u (.acc b o) → a.loc = b.loc →
-    pol a.loc = some .message → t ≠ u → HB tr i j ∨ HB tr j i
+  /-- `sentThenWritten`: unless the location is listed, a thread writes an object only before it
+  sends it -/
+  sendSem : ∀ i k t a o, At tr i t (.acc a o) → a.write = true → At tr k t (.send o) →
+    a.loc ∈ T.sentThenWritten ∨ i < k
+  /-- A3 (what is left of it): two threads touch a `message` object, one of them writing, only if
+  one handed it to the other through a channel; the receiver touches it after the receive, and a
+  sender that only reads has read before the send -/
+  msgSem : ∀ i j t u a b o, At tr i t (.acc a o) → At tr j u (.acc b o) → a.loc = b.loc →
+    pol a.loc = some .message → t ≠ u → (a.write = true ∨ b.write = true) →
+    (∃ k k', At tr k t (.send o) ∧ At tr k' u (.recv o) ∧ k < k' ∧ k' < j ∧ (a.write = false → i < k)) ∨
+    (∃ k k', At tr k u (.send o) ∧ At tr k' t (.recv o) ∧ k < k' ∧ k' < i ∧ (b.write = false → j < k))
 
 end Shk.Race
